@@ -980,6 +980,7 @@ func runC16(args []string) int {
 	c16EdDSA(rep, rng)
 	c16Misc(rep, rng)
 	c16MSM377(rep, rng)
+	c16MuxG2(rep, rng, o.Thorough())
 	writeFile(o.Out, "cases_C16_ed.v", "From Coq Require Import ZArith List Bool.\nFrom GnarkV Require Import Std.EdwardsCases.\nImport ListNotations.\nLocal Open Scope Z_scope.\n"+
 		fmt.Sprintf("Definition edcases : list edcase := %s.\nDefinition mism_edwards := Eval vm_compute in ed_mismatches 0 edcases.\nPrint mism_edwards.\n", coqlistNL(edCases)))
 	rep.CoqCases += len(edCases)
